@@ -8,6 +8,7 @@ CLAIMS["C18"] = dict(engine="seq",
        "(b) Get{Bool,Uint,Duration,Float,String}EnvironmentVariable and GetSdkDisabled over per-reader generators (all letter cases; 0, 1, 2^32-1, 2^32, 2^64-1, 2^64, 25 digits, signs, "
        "blanks, hex; 29 counts x 7 units incl. 2^63-adjacent, 25-digit and unit-conversion-overflowing values; float overflow/underflow/nan/inf/junk; all single and class-restricted double point "
        "mutations of short seeds, thorough: full double mutations of the shortest seeds) x errno on entry in {0, ERANGE}: documented syntax => true + exact value, libc leniency (leading blank, '+', zero durations, float sign/exponent/hex/inf/nan) => exact "
-       "value or default, anything else => default, never a wrapped or partial value. (c) Tracer/Logger/MeterProvider x construction path x 4 resources x scopes x items: every exported "
-       "span / log record / metric batch references its provider's resource object; sdk Provider::Set*Provider honours OTEL_SDK_DISABLED over 9 values.",
+       "value or default, anything else => default, never a wrapped or partial value. (c) Tracer/Logger/MeterProvider x construction path (constructor, factory, context; constructor and factory overloads without a resource, which must yield Resource::Create({}); "
+       "two processors / readers; a second processor / reader added with AddProcessor / AddMetricReader after a tracer / logger was handed out and telemetry emitted) x 4 resources x scopes x items: every exported "
+       "span / log record / metric batch, at every exporter / reader, references its provider's resource object; sdk Provider::Set*Provider honours OTEL_SDK_DISABLED over 9 values.",
   note=SEQ_NOTE + " Percent-decoding of OTEL_RESOURCE_ATTRIBUTES values is not part of the statement and not checked; batch processors and periodic readers are not used in part (c).")
